@@ -168,6 +168,25 @@ def relabel(rng, vals, max_abs=None):
     return out
 
 
+class MaxGen:
+    """generator passed as `seed` in the search: ordinary normal draws, the largest |draw| is remembered (the noise
+    bound C13_cores_1_noise_bound is deterministic in that maximum)"""
+
+    def __init__(self, seed):
+        self.g = np.random.default_rng(seed)
+        self.gmax = 0.
+
+    def normal(self, loc=0., scale=1., size=None):
+        a = self.g.normal(loc, scale, size)
+        self.gmax = max(self.gmax, float(np.max(np.abs(a), initial=0.)))
+        return a
+
+
+def noise_bound(noise, d, r, F, gmax):
+    """C13_cores_1_noise_bound: |noise| d r gmax (r (1 + 2F + |noise| gmax))^(d-1)"""
+    return abs(noise) * d * r * gmax * (r * (1. + 2. * F + abs(noise) * gmax)) ** (d - 1)
+
+
 def gen_samples(rng, dmax=4, nmax=4, kind=None, labels=True):
     """sample set: (I rows, y values, description).  Index values are arbitrary sorted integers per mode."""
     d = rng.randint(2, dmax)
@@ -499,6 +518,9 @@ def corr_cores1(R, ctx, tn):
     dist = dict(noise={}, r={}, d={}, kinds={})
     for c in range(n_cases):
         rows, y, desc = gen_samples(rng)
+        if rng.random() < 0.3:     # data of large magnitude (the noise is absolute, not relative to |y|)
+            mag = rng.choice([10 ** 4, 10 ** 8])
+            y = [v * mag + mag for v in y]
         r = rng.randint(2, 4)
         noise = rng.choice([0., 0., 2. ** -3, 2. ** -10, 2. ** -20, 1., 1e-10])
         gen = AuditGen(rng.randrange(2 ** 31))
@@ -1155,11 +1177,13 @@ def oracle_anova(tn, rows, y, r, order, noise, seed=1, forms=None):
     d = len(dom)
     shp = [len(x) for x in dom]
     try:
-        A = tn.ANOVA(I, yy, order=order_, seed=seed)
+        genA, genF = MaxGen(seed), MaxGen(seed + 1)
+        A = tn.ANOVA(I, yy, order=order_, seed=genA)
         Y = A.cores(r=r_, noise=noise)
         Y2 = A.cores(r=r_, noise=noise)          # history: the same object asked again
         Y3 = A.cores(r=r + 1, noise=noise)
-        Yf = tn.anova(I, yy, r=r_, order=order_, noise=noise, seed=seed)
+        Yf = tn.anova(I, yy, r=r_, order=order_, noise=noise, seed=genF)
+        gmax = max(genA.gmax, genF.gmax)
     except Exception as e:  # noqa
         return dict(what='anova raised on valid samples: ' + repr(e)[:200], input=inp)
     tol = 1e-10 * scale
@@ -1216,12 +1240,15 @@ def oracle_anova(tn, rows, y, r, order, noise, seed=1, forms=None):
                 return dict(what=f'{name}: order-1 tensor (noise 0) differs from f0 + sum f1', input=inp,
                             got=err, expected=tol)
         if order == 1 and noise > 0.:
-            # first-order perturbation scale: noise * (#entries touched) * magnitude; generous factor
+            # the proved bound (C13_cores_1_noise_bound) with F = max(|f0|, |f1|) of the exact reference and gmax the
+            # largest recorded draw, plus the rounding of the evaluation itself; valid at every magnitude of the data
             err = max(abs(float(ref[pos] - Fraction(float(full[pos])))) for pos in np.ndindex(*shp))
-            bound = noise * 40. * rr * rr * d * (1. + 2. * d * scale) * (1. + noise * 6. * rr) ** d + tol
-            if err > bound:
-                return dict(what=f'{name}: order-1 tensor is further from f0 + sum f1 than the noise explains',
-                            input=inp, got=err, expected=bound)
+            Fb = max([abs(float(f0))] + [abs(float(v)) for cur in f1 for v in cur.values()])
+            bound = noise_bound(noise, d, rr, Fb, gmax) * (1. + 1e-9) + 1e-12 * max(1., Fb) * d * rr
+            if not err <= bound:
+                return dict(what=f'{name}: order-1 tensor is further from f0 + sum f1 than the requested noise '
+                                 f'allows (bound |noise| d r gmax (r(1+2F+|noise| gmax))^(d-1), gmax={gmax:.3f}, '
+                                 f'F={Fb:.6g})', input=inp, got=err, expected=bound)
         if order == 2 and noise == 0. and rr >= lossless_rank(shp):
             err = max(abs(float(ref[pos] - Fraction(float(full[pos])))) for pos in np.ndindex(*shp))
             if err > 1e-6 * scale:
@@ -1374,7 +1401,7 @@ def search(R, ctx, deep, hints):
         if inp.get('stream') in ('stats', 'cores1', 'order2'):
             for order in ([inp['order']] if 'order' in inp else ([2] if inp['stream'] == 'order2' else [1])):
                 cand.append(dict(kind='anova', rows=inp['rows'], y=inp['y'], r=inp.get('r', 3), order=order,
-                                 noise=inp.get('noise', 0.) if inp.get('noise', 0.) != 1e-10 else 0.))
+                                 noise=inp.get('noise', 0.)))
                 cand.append(dict(kind='anova', rows=inp['rows'], y=inp['y'], r=max(inp.get('r', 3), 9), order=order,
                                  noise=0.))
         if inp.get('stream') == 'func':
@@ -1411,6 +1438,15 @@ def search(R, ctx, deep, hints):
     for dd in (15, 16, 17, 31):
         rows, y = gen_binary(rng, dd, 40)
         cand.append(dict(kind='near', rows=rows, y=y, r=rng.choice([2, 3])))
+    # the noise clause on data of large and small magnitude (|y| ~ 1e4, 1e8, 1e-6 with a non-zero mean), noise > 0
+    # including the default 1e-10, d = 3..5, through the class and through the wrapper (both inside oracle_anova)
+    for k_, (mag, nz) in enumerate([(1e4, 1e-10), (1e8, 1e-10), (1e-6, 1e-10), (1e4, 1e-6), (1e8, 1e-3), (1e4, 1e-10),
+                                    (1e-6, 1e-3), (1e4, 1e-10)] + ([(1e8, 1e-6), (1e4, 1e-3)] * 4 if deep else [])):
+        dd = 3 + k_ % 3
+        rows = [[rng.randint(0, 2) for _ in range(dd)] for _ in range(rng.randint(6, 14))]
+        y = [mag * (2. + rng.randint(-8, 8) / 8.) for _ in rows]
+        cand.append(dict(kind='anova', rows=rows, y=y, r=rng.randint(2, 4), order=1, noise=nz,
+                         seed=rng.randrange(1000)))
     # random structured inputs
     n_rand = 60 if not deep else 400
     for _ in range(n_rand):
@@ -1419,6 +1455,9 @@ def search(R, ctx, deep, hints):
         shp = [len(set(r[k] for r in rows)) for k in range(desc['d'])]
         r = rng.choice([2, 3, 4, lossless_rank(shp)]) if order == 2 else rng.randint(2, 5)
         noise = rng.choice([0., 0., 1e-10, 1e-6, 1e-3]) if order == 1 else 0.
+        if rng.random() < 0.3:
+            mag = rng.choice([1e4, 1e8, 2. ** -20])
+            y = [mag * v for v in y]
         cand.append(dict(kind='anova', rows=rows, y=y, r=r, order=order, noise=noise, seed=rng.randrange(1000)))
     # argument forms: every y form on a fixed data set first, then random forms
     rows0 = [[0, 5], [0, 7], [0, 9], [4, 5], [4, 7], [4, 9], [4, 9]]
